@@ -117,6 +117,13 @@ Proof.
       rewrite !Nat2N.inj_succ, !Nat2N.inj_add, !N2Nat.id. lia.
 Qed.
 
+(** xref.rs: byte_len at the powers of 256: exactly one byte more from 256^k on, not before (the column of the cross-reference
+    stream grows when — and only when — the largest offset reaches 256, 65536, …; the boundary an off-by-one in byte_len moves) *)
+Lemma byte_len_boundaries :
+  forallb (fun k => (byte_len (256 ^ k - 1) =? k) && (byte_len (256 ^ k) =? k + 1) && (byte_len (256 ^ k + 1) =? k + 1))
+          [1; 2; 3; 4; 5; 6; 7] = true /\ byte_len 0 = 1 /\ byte_len 1 = 1 /\ byte_len (2 ^ 64 - 1) = 8.
+Proof. vm_compute. repeat split; reflexivity. Qed.
+
 (** xref.rs: byte_len is wide enough (and at most 8) for every u64 *)
 Lemma byte_len_fits n : n < 2 ^ 64 -> n < 256 ^ byte_len n /\ byte_len n <= 8 /\ 1 <= byte_len n.
 Proof.
